@@ -64,6 +64,18 @@ def c10_scripts(rng, tier, model_prefixes):
             if rng.random() < 0.3:
                 pre.append({"op": "partial", "id": 0, "k": rng.choice([-1, 1, 2])})
             suf = suffix_ops(rng, n, rng.randrange(3, 9))
+            if n["ch"] > 1 and rng.random() < 0.5:
+                # a change of size/ratio, a call with some channels inactive, then the same channels
+                # active again: whatever the history left in the skipped channels' storage must not show
+                m1 = [rng.random() < 0.5 for _ in range(n["ch"])]
+                m1[rng.randrange(n["ch"])] = False
+                m1[rng.randrange(n["ch"])] = True
+                head = []
+                if kind.startswith("Sinc"):
+                    head.append({"op": "set_chunk", "n": rng.randrange(1, max(2, n["chunk"]))})
+                head += [{"op": "process", "mask": m1}, {"op": "process"}, {"op": "process", "mask": [not x for x in m1]},
+                         {"op": "process"}]
+                suf = head + suf
             # "any subsequent call sequence": masks that change from call to call, wrappers, partial
             # calls - whatever the history left in channels that were inactive must not show
             if n["ch"] > 1 and rng.random() < 0.6:
@@ -113,11 +125,20 @@ def c16_scripts(rng, tier, model_prefixes):
         else:
             a = {"op": "partial", "k": -1, "via": rng.choice(["into", "alloc", "vec_into", "vec_alloc"])}
             b["zero_from"] = 0
+        if a["op"] == "partial" and "kf" in a and ch > 1 and rng.random() < 0.4:
+            # ragged partial chunk: every channel brings its own number of frames (1..8 here, always
+            # below input_frames_next for the chunk sizes used); the twin pads each channel with zeros
+            ks = [rng.randrange(1, 9) for _ in range(ch)]
+            a.pop("kf"); b.pop("zf")
+            a["kpc"] = ks; a["k"] = max(ks)
+            b["zpc"] = ks; b["zero_from"] = max(ks)
         if mask is not None:
             a["mask"] = mask
             b["mask"] = mask
             if not any(mask):
                 a["via"] = "into" if a["op"] == "partial" else "vec_into"
+            elif rng.random() < 0.5 and a.get("via", "into") in ("into", "vec_into", "slices"):
+                a["empty_masked"] = True     # inactive channels passed as empty slices
         return a, b
 
     def build(n, pre_common, steps):
@@ -283,6 +304,11 @@ def c11_scripts(rng, tier, model_prefixes):
             n["signal"] = "noise"
             n.pop("probe", None)
             n["T"] = rng.choice([32, 64])
+            if kind.startswith("Sinc") and rng.random() < 0.4:
+                # consecutive output frames between the same intermediate points / on the same input index
+                n["F"] = rng.choice([2, 4])
+                n["r"] = gen.rj(rng.choice([Fraction(8), Fraction(16), Fraction(13, 3), Fraction(6), Fraction(5)]))
+                n["chunk"] = min(n["chunk"], 64)
             nch = rng.randrange(1, 9)
             mask = [rng.random() < 0.6 for _ in range(nch)]
             if rng.random() < 0.1:
